@@ -101,6 +101,7 @@ func walk[S, T any](ctx context.Context, g *graph[S], t *traversal[S, T]) error 
 			case <-ctx.Done():
 				return nil
 			case node := <-nodeCh:
+				yield("coord.recv")
 				expect--
 				if expect == 0 {
 					return nil
@@ -122,24 +123,31 @@ func walk[S, T any](ctx context.Context, g *graph[S], t *traversal[S, T]) error 
 }
 
 func (t *traversal[S, T]) visit(ctx context.Context, eg *errgroup.Group, node *vertex[S], nodeCh chan *vertex[S]) {
+	yield("visit.begin")
 	if !t.ready(node) {
 		// don't visit this service yet as dependencies haven't been visited
 		return
 	}
+	yield("visit.ready")
 	if !t.enter(node) {
 		// another worker already acquired this node
 		return
 	}
+	yield("visit.entered")
 	eg.Go(func() error {
 		var (
 			err    error
 			result T
 		)
+		yield("run.begin")
 		if !t.skip(node) {
 			result, err = t.visitor(ctx, node.key, *node.service)
 		}
+		yield("run.visited")
 		t.done(node, result)
+		yield("run.done")
 		nodeCh <- node
+		yield("run.sent")
 		return err
 	})
 }
